@@ -2,6 +2,7 @@ package props
 
 import (
 	"fmt"
+	"sort"
 
 	"cosmossdk.io/math"
 	"verifsim/core"
@@ -10,7 +11,12 @@ import (
 func init() {
 	for _, id := range []string{"C17", "C14", "C06", "C05", "C04", "C07", "C09"} {
 		id := id
-		Register(id, func(r *core.Run) []*core.Violation { return jobScenario(r, id) })
+		Register(id, func(r *core.Run) []*core.Violation {
+			if (id == "C05" || id == "C06") && r.Tape.Draw(4) == 3 {
+				return skyBatchScenario(r, id) // the bridge-batch half of these properties
+			}
+			return jobScenario(r, id)
+		})
 	}
 }
 
@@ -135,6 +141,11 @@ func jobScenario(r *core.Run, prop string) []*core.Violation {
 			w.Pigeons[vi].Hooks.Evidence = w.byzEvidence(vi)
 			w.Pigeons[vi].Hooks.Estimate = w.byzEstimate
 		}
+	case "C06":
+		// one or two validators also submit signatures that must not be accepted
+		for i := 0; i < 1+t.Intn(2) && i < cfg.NVals-2; i++ {
+			byz[cfg.NVals-1-i] = true
+		}
 	case "C07":
 		// liars may hold anything from 0 to 100 % of the shares
 		n := t.Intn(cfg.NVals + 1)
@@ -199,6 +210,13 @@ func jobScenario(r *core.Run, prop string) []*core.Violation {
 		if prop == "C09" {
 			w.hostileInputs(byz)
 		}
+		if prop == "C06" {
+			for _, vi := range sortedInts(byz) {
+				if t.Chance(1, 3) {
+					w.byzSign(vi)
+				}
+			}
+		}
 		br := w.Step()
 		if w.Aborted {
 			break
@@ -231,4 +249,13 @@ func jobScenario(r *core.Run, prop string) []*core.Violation {
 		r.Profile, len(cfg.Chains), cfg.NVals, cfg.NUsers, r.Blocks, r.Stats.Probes["job_created"], r.Stats.Probes["job_executed"], r.Stats.Probes["job_execute_failed"],
 		r.Stats.Probes["relay_ok"], r.Stats.Probes["relay_reverted"], r.Stats.Probes["c06_signature_checked"], r.Stats.Probes["c06_signing_bytes_changed"], r.Stats.Probes["c14_fee_checked"], r.Stats.Probes["c14_relay_offer_checked"])}
 	return viols
+}
+
+func sortedInts(m map[int]bool) []int {
+	var out []int
+	for k := range m {
+		out = append(out, k)
+	}
+	sort.Ints(out)
+	return out
 }
